@@ -1135,7 +1135,7 @@ func TestVerifC14Hostile(t *testing.T) {
 	const U = "C14.hostile"
 	rapid.Check(t, func(rt *rapid.T) {
 		alg := rapid.SampledFrom([]uint8{5, 7, 8, 10, 13, 14, 15, 1, 0, 255}).Draw(rt, "alg")
-		klen := rapid.SampledFrom([]int{0, 1, 2, 3, 4, 31, 32, 33, 64, 65, 96, 97, 129, 515, 1027, 4092, 4093, 8192, 16384, 65000}).Draw(rt, "klen")
+		klen := rapid.SampledFrom([]int{0, 1, 2, 2, 3, 4, 5, 6, 9, 31, 32, 33, 64, 65, 96, 97, 129, 515, 1027, 4092, 4093, 8192, 16384, 65000}).Draw(rt, "klen")
 		raw := make([]byte, klen)
 		pat := rapid.IntRange(0, 3).Draw(rt, "pat")
 		for i := range raw {
@@ -1150,7 +1150,15 @@ func TestVerifC14Hostile(t *testing.T) {
 				raw[i] = byte(i * 251)
 			}
 		}
-		if klen > 3 {
+		if klen >= 2 && klen <= 256 && rapid.IntRange(0, 5).Draw(rt, "exponly") == 0 {
+			// the exponent length octet, exactly that many exponent octets (first one non-zero), and no modulus at all
+			raw[0] = byte(klen - 1)
+			raw[1] |= 1
+		} else if klen >= 5 && rapid.IntRange(0, 9).Draw(rt, "exponly3") == 0 {
+			// the same in the three-octet length form
+			raw[0], raw[1], raw[2] = 0, byte((klen-3)>>8), byte(klen-3)
+			raw[3] |= 1
+		} else if klen > 3 {
 			switch rapid.IntRange(0, 4).Draw(rt, "hdr") {
 			case 0: // huge exponent length
 				raw[0] = 0
